@@ -1260,18 +1260,19 @@ def _build_staircase(U, rtol=1e-12, atol=1e-12):
             full_Rij_inv = np.identity(n, dtype=complex)
 
             if rot_idx != n - 2:
-                # The denominator of the transformation is the difference of
-                # absolute values of all columns *up* to this point.
-                sum_of_column = 0
-                for k in range(i):
-                    sum_of_column += pow(np.absolute(running_prod[k, 0]), 2)
-                cf = np.sqrt(1 - sum_of_column)
-
+                # The denominator of the transformation is the norm of what is left of
+                # the column at this point (the entries below have been nulled already).
+                # It is computed from those entries, not as the difference to 1, so that
+                # the rotation is exactly unitary and rounding errors do not grow.
                 y, z = running_prod[i, 0], running_prod[j, 0]
-                capY, capZ = y / cf, z / cf
+                cf = np.sqrt(pow(np.absolute(y), 2) + pow(np.absolute(z), 2))
 
-                # Build the SU(2) transformation and embed it into the larger matrix
-                Rij_inv = np.array([[np.conj(capY), np.conj(capZ)], [-capZ, capY]])
+                # If both entries vanish there is nothing to null between these modes
+                if not np.isclose(cf, 0, rtol, atol):
+                    capY, capZ = y / cf, z / cf
+
+                    # Build the SU(2) transformation and embed it into the larger matrix
+                    Rij_inv = np.array([[np.conj(capY), np.conj(capZ)], [-capZ, capY]])
             else:
                 # The last transformation, R12 is special and the rotation has
                 # a different form
